@@ -351,7 +351,7 @@ def savesFS (cfg : Storage.Cfg) (cls : Storage.Cls) : Storage.FS → Nat → Lis
 
 /-- whatever was saved before, in whatever form: what `Node.load` reads after the save of cut `v` is cut `v` -/
 theorem C08_file_holds_last_cut (cfg : Storage.Cfg) (cls : Storage.Cls) (fs : Storage.FS) (v0 : Nat)
-    (earlier : List Storage.Content) (c : Storage.Content) (hc : c ≠ .bothFail) :
+    (earlier : List Storage.Content) (c : Storage.Content) (hc : c.fails = false) :
     Storage.storageLoad (savesFS cfg cls fs v0 (earlier ++ [c])) = .ok cls (v0 + earlier.length) := by
   induction earlier generalizing fs v0 with
   | nil => simpa [savesFS] using Storage.save_last_wins cfg fs c cls v0 hc
